@@ -128,17 +128,17 @@ def judge(log, leftovers, rc, what, fault, sh, case):
                 return False
     import re
     own = re.compile(r"^libcnbtest_[a-z]{12}$")
-    if not images:
-        # the fault hit before pack build ran: the runner may still remove the names it had allocated for this build (its own, random
-        # identifiers) - once each, and nothing else
-        pre = [c for c in cmds if c["kind"] in ("docker rmi", "docker volume remove")]
-        ids = {n.split(".")[0] for c in pre for n in c["names"]}
-        if len(ids) > 1 or any(not own.match(i) for i in ids) or len([c for c in pre if c["kind"] == "docker rmi"]) > 1 or len([c for c in pre if c["kind"] == "docker volume remove"]) > 1:
-            sh.violation("foreign-removed-before-build", "%s: removals although no image was ever built: %r" % (what, [log[c["seq"]]["argv"] for c in pre]), case)
+    # identifiers the runner allocated for a build whose pack build never ran (the fault hit earlier): the runner may still remove
+    # them - its own random names - once each, and nothing else
+    pre = [c for c in cmds if c["kind"] in ("docker rmi", "docker volume remove")]
+    for i in sorted({n.split(".")[0] for c in pre for n in c["names"]} - set(images)):
+        n_rmi = len([c for c in pre if c["kind"] == "docker rmi" and i in c["names"]])
+        n_vol = len([c for c in pre if c["kind"] == "docker volume remove" and any(n.split(".")[0] == i for n in c["names"])])
+        if not own.match(i) or n_rmi > 1 or n_vol > 1:
+            sh.violation("foreign-removed", "%s: removal of %r, which this run never built (rmi x%d, volume remove x%d); images built: %r" % (what, i, n_rmi, n_vol, sorted(images)), case)
             return False
-        for i in ids:
-            images[i] = []
-            volumes.update({i + ".build-cache", i + ".launch-cache"})
+        images[i] = []
+        volumes.update({i + ".build-cache", i + ".launch-cache"})
     for c in cmds:
         if c["kind"] == "docker rm" and any(n not in containers for n in c["names"]):
             sh.violation("foreign-container-removed", "%s: docker rm %r, containers started by this run: %r" % (what, c["names"], sorted(containers)), case)
@@ -183,6 +183,9 @@ def run_tree(env, tidx, tree, sh):
     """tree = (first build config, body). Runs the baseline, then one run per fault position."""
     cfg, body = tree
     scenario = {"builds": [{"config": cfg, "body": body}]}
+    if tidx % 5 == 4:
+        # a second, independent build in the same test: its resources must not be mixed up with the first one's
+        scenario["builds"].append({"config": bconf(pre=tidx % 2 == 0), "body": [{"op": "run_shell_command", "command": "true"}]})
     case0 = {"tree": tidx, "scenario": scenario}
     rc, err, log, left = env.run(scenario)
     sh.evaluations += 1
